@@ -780,6 +780,14 @@ class Exec:
     def write(self, op, val):
         jd = judge(self.case, val)
         obj = decode(val)
+        if op == "edit":
+            # in-place edit of the map object the library hands out, assigned back to persist it:
+            # only for maps the statement accepts as they are (anything else is the business of
+            # "set"); the expectation is the old map overlaid with the edited entries
+            if jd["status"] != "ok" or not jd["canonical"] or not isinstance(self.model, dict) or not isinstance(self.model["expected"], dict):
+                return None
+            jd = dict(jd)
+            jd["expected"] = {**self.model["expected"], **jd["expected"]}
         if self.path.startswith("add_comment"):
             jd = dict(jd)
             prev = self.model["expected"] if isinstance(self.model, dict) else []
@@ -792,6 +800,11 @@ class Exec:
         try:
             if op == "create":
                 self.ent = self.do_create(obj)  # (metadata: obj None = nothing written yet)
+            elif op == "edit":
+                held = self.ent.value_map
+                for key, label in obj.items():
+                    held[key] = label
+                self.ent.entity_type.value_map = held
             else:
                 self.do_set(obj)
         except Exception as err:  # pylint: disable=broad-except
@@ -846,7 +859,7 @@ class Exec:
                     if self.ent is None:
                         break
                     continue
-                if self.model is ABSENT and op == "set":
+                if self.model is ABSENT and op in ("set", "edit"):
                     break  # nothing to assign to: the creation was refused
                 had_model = isinstance(self.model, dict)
                 raised = self.write(op, step[1])
